@@ -292,6 +292,16 @@ def is_insert(t0, t1, vals, rowid=None):
     return EX([INT], at)
 
 
+def is_insert_where(t0, t1, P):
+    """t1 = t0 plus exactly one new row whose columns satisfy P(Row)."""
+    def at(r2):
+        return And(Not(t0.live[r2]), t1.live[r2], P(Row(t1, r2)),
+                   FA([INT], lambda r: Implies(r != r2, And(t1.live[r] == t0.live[r],
+                                                           Implies(t0.live[r], same_row(t0, t1, r)))),
+                      pats=lambda r: [t1.live[r]]))
+    return EX([INT], at)
+
+
 # ---------------------------------------------------------------------------
 # SQL
 # ---------------------------------------------------------------------------
